@@ -235,6 +235,20 @@ pub fn run(args: &Args) -> i32 {
         let tracks = check_clustering(pts, what.clone(), loc);
         check_vertex_partition(tracks, what, loc);
     });
+    // three or four mutually disconnected groups on one radial line (one Hough bin), in every order of sizes
+    {
+        let size_sets: Vec<Vec<usize>> = vec![vec![14, 8, 20], vec![8, 14, 20], vec![20, 8, 14], vec![14, 20, 8], vec![8, 20, 14], vec![20, 14, 8], vec![13, 5, 13], vec![5, 13, 5, 13], vec![14, 3, 3, 15], vec![12, 12, 12], vec![13, 13, 13, 13]];
+        rep.run("groups-on-one-line", size_sets.len() as u64 * 2, 300, true, "3 or 4 radial segments (2 mm spacing) of 11 size patterns on the same (phi) line, 40 cm / 10 cm apart in z: every cluster must be one connected group", |idx, loc| {
+            let sizes = &size_sets[(idx / 2) as usize];
+            let dz = if idx % 2 == 0 { 0.4 } else { 0.1 };
+            let mut pts = Vec::new();
+            for (g, &n) in sizes.iter().enumerate() {
+                let z = -0.5 + dz * g as f64;
+                pts.extend((0..n).map(|i| sp(0.11 + 0.002 * i as f64, 2.2, z)));
+            }
+            check_clustering(pts, json!({"family": "groups-on-one-line", "sizes": sizes, "dz": dz}), loc);
+        });
+    }
     // two spots of 8 identical hits each, separated by 2.5 .. 6 cm along the azimuth / radius / z (a cluster may hold
     // both only if they are within 3 cm of each other)
     let seps = [0.025, 0.029, 0.0299, 0.0301, 0.031, 0.033, 0.036, 0.04, 0.042, 0.0425, 0.045, 0.05, 0.06];
